@@ -357,7 +357,7 @@ PROPS = {
         "partial": [],
         "n_quick": 40000, "n_thorough": 4000000,
         "nontrivial": lambda toks, impl: impl != "panic", "tags": _c10_tags,
-        "rule": "requests `<type> <op> <args>` over all 19 shipped k-mer types and 18 operations (get, set, setslice with garbage below the "
+        "rule": "requests `<type> <op> <args>` over all 19 shipped k-mer types plus three `VarIntKmer` instances that are no alias (`<u8,K4>`, the only one that fills its storage, `<u16,K4>`, `<u128,K31>`) and 18 operations (get, set, setslice with garbage below the "
                 "run, extl, extr, rc, tou64, fromu64, ham, at, gc, tostr, frombytes, fromascii with non-ACGT noise, minrc(+flip,+palindrome), "
                 "cmp, kmers_from_bytes/ascii); k-mers drawn uniformly from all 4^K values for K<=8 and from a biased family (all-A, all-T, "
                 "alternating, one-hot lane, s++rc(s), uniform) otherwise; 1/12 too-short inputs for the constructors. k-mers travel as raw "
@@ -372,7 +372,7 @@ PROPS = {
         "partial": [],
         "n_quick": 6000, "n_thorough": 400000,
         "nontrivial": lambda toks, impl: impl != "panic" and toks[4] != "-" and toks[4].count(",") >= 2, "tags": _c11_tags,
-        "rule": "requests `<type> hist <init> <ops> <other>`: a k-mer of one of the 19 types built by from_bytes / from_u64 / from_ascii, then "
+        "rule": "requests `<type> hist <init> <ops> <other>`: a k-mer of one of the 22 types of the regenerated table (19 shipped + VarIntKmer<u8,K4>, <u16,K4>, <u128,K31>) built by from_bytes / from_u64 / from_ascii, then "
                 "0-40 operations drawn from extend_left, extend_right, extend, rc, set_mut, set_slice_mut (random garbage below the run), "
                 "min_rc; the answer lists the raw storage word and the bases after every step, then ==, hash equality and cmp against the "
                 "from_bytes route to the same string and against another k-mer, and the binary-search position in the sorted, "
@@ -461,7 +461,7 @@ PROPS = {
         "rule": "requests `<ktype> rc <container> <seq>`: rc, rc∘rc and the k-mers of the reverse complement for DnaString, DnaStringSlice (both "
                 "orientations, inner offsets) and Lmer (1-6 words), lengths 0, 1, block boundaries and random; `exts <hex>` for extension "
                 "bytes (all 256 in the corpus). Verdict: rc = reversed complemented bases, rc∘rc = identity, i-th k-mer of rc = rc of the "
-                "(n-K-i)-th k-mer; Exts: sides swapped, bases complemented. The k-mer instance (min_rc, flip, palindrome) is in the C10 requests.",
+                "(n-K-i)-th k-mer; for slices also the owned copy of the rc view and the rc of the owned copy (both = the reversed complemented bases); Exts: sides swapped, bases complemented. K-mer types from the 22-row table. The k-mer instance (min_rc, flip, palindrome) is in the C10 requests.",
         "trusted_base": [],
         "assumptions": [],
     },
@@ -476,7 +476,7 @@ PROPS = {
         "rule": "requests: `acgt auto|scalar <bytes>` (lengths 0..130 incl. 0,1,31..33,63..65,95..97,128,130; 60% ACGTacgt, 40% arbitrary bytes "
                 "0..255; valid 32-byte blocks with 0-2 lanes perturbed to arbitrary values plus a tail), `kernel convert|pack <32 bytes>` "
                 "(raw AVX2 kernels through the hook wrappers, arbitrary bytes incl. >= 4 for pack), `str`, `only` (ASCII text with 40% "
-                "arbitrary ASCII), `hashn <b1> <b2> <name>` (two byte strings under one read name: non-ACGT positions shared between the "
+                "arbitrary ASCII; half of the `only` texts are built from runs of valid bases with lengths around and on multiples of 32, one to three other characters between them), `hashn <b1> <b2> <name>` (two byte strings under one read name: non-ACGT positions shared between the "
                 "two must receive the same base). Forced-scalar path through the verif_hooks switch. Non-trivial = an answer was produced.",
         "trusted_base": ["x86 semantics of the eleven AVX2 intrinsics as transcribed in Model/Avx2.lean (validated against the hardware by the "
                          "kernel requests on arbitrary bytes)", "DefaultHasher is an arbitrary deterministic function (parameter of the model)"],
@@ -495,7 +495,7 @@ PROPS = {
                 "reads < K, rc/duplicate/SNP/tip copies; random boundary extensions on a quarter of the reads; labels 0..2), K in "
                 "{4,5,6,8,12,16,31,32} (thorough: all 17 types with K>=4), CountFilter(n) / CountFilterSet(n) for n in {0,1,2,3,4,70000}, "
                 "both strandedness and report_all values; the bytes-per-unit hook is set so that the pass count sweeps 1, 2, 2-8, 8-64, "
-                "64-256 and 256; now and then one 70000-base homopolymer (count saturation). The answer carries the number of passes really "
+                "64-256 and 256; one request in 150 is a single read with a run of 65600-70000 equal bases, up to two other bases before it and up to three after it, under thresholds 1, 2, 65535, 65536, 70000 (count saturation; the run's first and last observations carry flanks no other does). The answer carries the number of passes really "
                 "made (hook counter), the table sorted by key, all_kmers verbatim and lookups of present/absent k-mers. Non-trivial = at "
                 "least two table entries.",
         "trusted_base": ["BoomHashMap2: exact get after key verification, iteration is a permutation of the inserted triples; "
@@ -575,7 +575,7 @@ PROPS = {
         "nontrivial": lambda toks, impl: impl != "panic" and (toks[1] != "export" or toks[4].count(",") >= 1), "tags": _c20_tags,
         "shrink": _c20_shrink,
         "rule": "requests `export K stranded nodes rest`: GFA and JSON text of graphs from the pipeline (60%), hand-made empty / single-node / "
-                "link-free graphs, pipeline graphs with dangling extension bits and removed nodes, with and without a `rest` object (keys with quotes, backslashes, control characters); to_gfa (file) must equal write_gfa, to_gfa_with_tags (file) is compared with the model; the JSON is additionally parsed with serde_json and its node and "
+                "link-free graphs (single and link-free nodes also on both sides of 256 bases, pipeline graphs with a 280-340-base read: `Debug` of a view stops printing bases there), pipeline graphs with dangling extension bits and removed nodes, with and without a `rest` object (keys with quotes, backslashes, control characters); to_gfa (file) must equal write_gfa, to_gfa_with_tags (file) is compared with the model; the JSON is additionally parsed with serde_json and its node and "
                 "link counts compared with the graph; `persist kmer|dna|exts|lmer|graph …`: serde_json round trips with equality and query "
                 "comparison. Non-trivial = export of a graph with >= 2 nodes, or a persist request.",
         "trusted_base": ["serde / serde_json derive code (round trips are tested, not proved)", "Debug of DnaStringSlice (C15) renders the node sequence"],
@@ -615,7 +615,7 @@ PROPS = {
         "partial": ["that boomphf's parallel builder meets the exact-lookup contract under every thread schedule is not provable in a model of this crate: explored by execution (1-16 threads, repeated runs, 10^5-node graphs)"],
         "n_quick": 1500, "n_thorough": 60000,
         "nontrivial": lambda toks, impl: impl.startswith("same=1") or ("same=1" in impl and toks[5].count(",") >= 1), "tags": _c19_tags,
-        "rule": "requests `finish K stranded threads nodes probes`: pipeline graphs finished once with finish_serial() and five times with finish() "
+        "rule": "requests `finish K stranded threads nodes probes`: pipeline graphs (one in three with even K extended by hand-built nodes around a k-mer that is its own reverse complement - a longer node that starts or ends with it, neighbours whose extension leads to it - and probed at that k-mer and the new node ends on both sides) finished once with finish_serial() and five times with finish() "
                 "inside a rayon pool of 1,2,3,4,8 or 16 threads; every edge list and link lookups for terminal, internal, reverse-complemented "
                 "and random k-mers are compared between the builders, across runs and with the model; `big K seed n threads reps`: graphs of "
                 "10^5 nodes (thorough: 3*10^5), parallel vs serial on every node side and 10^4 random k-mers (implementation against "
